@@ -180,6 +180,83 @@ def check_closest(case, ctx):
                           "closest/wrong-times", where)
 
 
+def check_closest_handler(case, ctx):
+    """find_closest on a fileset whose coverage comes from the file handler
+    (info_via 'both' / 'handler'): a sequence of queries on ONE object, some
+    of them exactly on a file name (the short cut), must each obey the
+    validity predicate with the handler's coverage."""
+    from typhon.files import FileHandler, FileInfo, FileSet
+    from typhon.files.fileset import NoFilesError
+    tpl = case["template"]
+    via = case["info_via"]
+    P = G.typhon_dir_period(tpl)
+    ctx.label("handler-coverage", "via-" + via)
+    with G.Sandbox() as box:
+        root = box.mkdir("tree")
+        pop = G.make_population(root, tpl, case["files"])
+        if not pop.files:
+            return
+        truth = {}
+        for i, f in enumerate(pop.files):
+            add = case["end_extra_s"][i % len(case["end_extra_s"])]
+            t1 = f.t1 if add is None else f.t1 + dt.timedelta(seconds=add)
+            truth[f.path] = (f.t0, t1, add is not None)
+
+        def info(file_info):
+            t0, t1, overridden = truth[file_info.path]
+            if via == "handler":
+                return FileInfo(file_info.path, [t0, t1], {})
+            return FileInfo(file_info.path,
+                            [None, t1 if overridden else None], {})
+
+        cov = tpl["coverage_s"]
+        fileset = FileSet(
+            pop.path, name="c16h", handler=FileHandler(info=info),
+            info_via=via, placeholder=G.user_placeholder_arg(tpl),
+            time_coverage=None if cov is None else dt.timedelta(seconds=cov))
+        for k, t in enumerate(case["ts"]):
+            files = [(p, v[0], v[1]) for p, v in truth.items()]
+            if P is None:
+                strict = loose = files
+            else:
+                strict = [f for f in files if f[1] < t + P and f[2] > t - P]
+                loose = [f for f in files if f[1] <= t + P and f[2] >= t - P]
+            covering = [f for f in strict if f[1] <= t <= f[2]]
+            where = lambda: "query %d of %r: t=%s via=%s template=%r\n" \
+                "truth=%r" % (k, case["ts"], t, via, pop.path, truth)
+            try:
+                got = fileset.find_closest(t)
+            except NoFilesError:
+                got = None
+            if any(f.s == t and f.e == t for f in pop.files) and k:
+                ctx.label("exact-name-after-other-queries")
+            if got is None:
+                ctx.check(not strict, "closest/nothing-returned", where)
+                continue
+            path = got if isinstance(got, str) else got.path
+            ctx.check(path in truth, "closest/unknown-file", where)
+            if path not in truth:
+                continue
+            t0, t1, _ = truth[path]
+            ctx.check((path, t0, t1) in loose, "closest/far-away-file", where)
+            if covering:
+                ctx.label("covered")
+                ctx.check(t0 <= t <= t1, "closest/not-the-covering-file",
+                          lambda: "got %r (%s .. %s) although %r cover t; %s"
+                          % (path, t0, t1, covering, where()))
+            elif strict:
+                best = min(min(abs(f[1] - t), abs(f[2] - t)) for f in strict)
+                ctx.check(min(abs(t0 - t), abs(t1 - t)) <= best,
+                          "closest/not-the-nearest", where)
+                ctx.nontrivial = ctx.nontrivial or len(strict) >= 2
+            if not isinstance(got, str):
+                ctx.check(list(got.times) == [t0, t1], "closest/wrong-times",
+                          lambda: "got %r; %s" % (got.times, where()))
+        if any(v[2] for v in truth.values()):
+            ctx.label("handler-overrides-end")
+            ctx.nontrivial = True
+
+
 def check_single(case, ctx):
     import os
     from typhon.files import FileSet
@@ -247,6 +324,42 @@ def closest_cases(draw):
 
 
 @st.composite
+def closest_handler_cases(draw):
+    tpl = draw(G.templates(max_dirs=3, allow_wild=False, allow_ms=False,
+                           allow_user=False))
+    last = tpl["file"][-1]
+    if last[0] == "lit" and last[1].endswith(".gz"):
+        last[1] = last[1][:-3]
+    files = draw(G.populations(tpl, min_files=1, max_files=8))
+    planned = G.plan_population(tpl, files, "")
+    res = G.resolution_of(tpl)
+    unit = G.RES_DELTA[res]
+    limit = G.dir_period(tpl)
+    extras = []
+    for f in planned:
+        room = None if limit is None else \
+            int((limit - (f.t1 - f.t0)).total_seconds())
+        choices = [c for c in (None, 60, 50 * 60, 3600, 7200)
+                   if c is None or room is None or c <= room]
+        extras.append(draw(st.sampled_from(choices)))
+    starts = [f.t0 for f in planned]
+    ts = []
+    for _ in range(draw(st.integers(2, 5))):
+        base = draw(st.sampled_from(starts))
+        off = draw(st.sampled_from([
+            dt.timedelta(0), dt.timedelta(0), unit, 5 * unit,
+            dt.timedelta(minutes=50), dt.timedelta(minutes=10),
+            -unit, dt.timedelta(hours=1, minutes=30)]))
+        t = G.truncate(base + off, res)
+        if not G.year_ok(tpl, t.year):
+            t = base
+        ts.append(t)
+    return {"template": tpl, "files": files, "end_extra_s": extras or [None],
+            "info_via": draw(st.sampled_from(["both", "both", "handler"])),
+            "ts": ts}
+
+
+@st.composite
 def single_cases(draw):
     t0 = draw(G.instants("second"))
     cov = draw(st.one_of(st.none(), st.just(
@@ -261,4 +374,7 @@ def suites(tier):
               examples={"quick": 200, "thorough": 3000}),
         Suite("single-file", check_single, strategy=single_cases(),
               examples={"quick": 20, "thorough": 200}),
+        Suite("closest-handler", check_closest_handler,
+              strategy=closest_handler_cases(),
+              examples={"quick": 100, "thorough": 1500}),
     ]
